@@ -410,6 +410,19 @@ pub fn overridden(cfg: &HistCfg) -> HistCfg {
     }
     c
 }
+/// "mixq": calls alternate between a small fixed capacity (0 .. minimum+1, so that states behind an OutputFull are
+/// reached) and the queried capacity (the call under test for C07)
+pub fn cap_override_i(sink: Sink, c: CapSpec, i: usize, salt: usize) -> CapSpec {
+    if ov().cap.as_deref() == Some("mixq") {
+        if (i + salt) % 2 == 0 {
+            CapSpec::Fixed((salt / 2 + i / 2) % (sink.min_cap() + 2))
+        } else {
+            CapSpec::Query(0)
+        }
+    } else {
+        cap_override(sink, c)
+    }
+}
 pub fn cap_override(sink: Sink, c: CapSpec) -> CapSpec {
     match ov().cap.as_deref() {
         Some("min") => CapSpec::Fixed(sink.min_cap()),
@@ -440,13 +453,16 @@ pub fn run_chunked(
     let shrink = old_min - sink.min_cap().min(old_min);
     let caps0 = caps;
     // capacities are meant relative to the sink's documented minimum: keep that when the sink is overridden
+    let salt = rot();
     let mut caps = |i: usize| {
-        cap_override(
+        cap_override_i(
             sink,
             match caps0(i) {
                 CapSpec::Fixed(c) => CapSpec::Fixed(c + delta - shrink.min(c)),
                 q => q,
             },
+            i,
+            salt,
         )
     };
     let mut h = Hist::begin(sh, cfg, true);
